@@ -7,7 +7,9 @@ RULE = ("S->C: TLC enumerates the decision table of TonConnect_Gen (3 key source
         "into abstract cases with the verdict TonConnect!Decide requires; the harness concretises each (keys from seeds, state-inits "
         "from the wallet package, CreateSignedProof, mock executor) and runs the real Server.CheckProof under recover(); required: "
         "verdict (ok, key, error) equal to the table's, no panic. C->S: every concrete proof (table cases, random single-field "
-        "substitutions / bit flips of valid proofs), CheckPayload on crafted payloads and GeneratePayload + CheckPayload after real "
+        "substitutions / bit flips of valid proofs; the genuine state-init bag of each of the 17 contracts with every byte of header, root list, "
+        "index, cell descriptors and reference indices replaced by b+1, b-1, 00, ff, every truncation at a structural boundary, and data bytes "
+        "sampled 1 in 8/16 (all of them, plus crc/idx containers, in the thorough tier)), CheckPayload on crafted payloads and GeneratePayload + CheckPayload after real "
         "waiting is recorded with all inputs and judged by TonConnect_Trace from the bytes alone (message hash, EdVerify, state-init "
         "hash via Cells/Boc, HMAC, ages); the facts TLC derives from the bytes must also equal the facts of the table row. "
         "Non-trivial = a Check event; distinct = distinct table rows + distinct mutated proofs.")
@@ -43,6 +45,8 @@ def key_of(e, want):
     if g["panic"]:
         # the state-init parser handed back neither a key nor an error
         sym = "nil_key" if (ps["panic"] == "" and ps["ok"] and ps["key"] == "") else "panic"
+    elif ps.get("panic"):
+        sym = "parse_state_init_panic"       # CheckProof answered, tonconnect.ParseStateInit on the same text crashed
     elif g["ok"] and g["err"]:
         sym = "ok_with_error"
     elif g["ok"]:
@@ -162,7 +166,7 @@ def run(ck):
     nmatch = 0
     reported = []
     for e in evs:
-        if mismatch(e["want"], e["go"]):
+        if mismatch(e["want"], e["go"]) or e.get("ps", {}).get("panic"):
             reported.append(e)
         else:
             nmatch += 1
@@ -209,6 +213,7 @@ def run(ck):
         return out, de, cr, pr
     drives = vlib.parallel(drive, range(dshards))
     jobs = list(shards)
+    pooled = []
     for out, de, cr, pr in drives:
         if cr:
             cs = cr.get("case")
@@ -216,14 +221,15 @@ def run(ck):
                 raise Infra("vh drive C19 died:\n" + pr.stdout[-3000:])
             ck.report("C19:%s:%s:fatal" % ("get_method" if cs.get("src") == "chain" else "state_init", cs.get("tamper", "?").replace(":", "_")),
                       "the process died (unrecoverable) inside CheckProof", {"kind": "begin", "begin": cr, "output": pr.stdout[-2000:]})
-        # spread the driver events over more TLC processes
-        nsplit = 1
-        for j in range(nsplit):
-            part = de[j::nsplit]
-            if part:
-                sp = out.replace(".ndjson", "_%d.ndjson" % j)
-                vlib.write_ndjson(sp, part + [{"k": "End", "events": len(part)}])
-                jobs.append((sp, part))
+        pooled += de
+    # spread the driver events over TLC processes of a few hundred events each (the bag sweep is the bulk of them)
+    nsplit = max(1, min(NSHARD, (len(pooled) + 449) // 450))
+    for j in range(nsplit):
+        part = pooled[j::nsplit]
+        if part:
+            sp = os.path.join(ck.work, "drive_part_%02d.ndjson" % j)
+            vlib.write_ndjson(sp, part + [{"k": "End", "events": len(part)}])
+            jobs.append((sp, part))
     def val(job):
         return judge_file(ck, job[0], "trace_" + os.path.basename(job[0]).replace(".ndjson", ""))
     results = vlib.parallel(val, jobs, n=NSHARD)
@@ -287,6 +293,12 @@ def run(ck):
         inconsistent += sig_only
     if inconsistent:
         raise Infra("%d concrete cases do not realise their decision-table row (harness or table defect), first: %s" % (len(inconsistent), json.dumps(inconsistent[0])[:1500]))
+    sweep = collections.Counter(e["case"]["tamper"] for e in pooled if e.get("k") == "Check" and "bag" in e)
+    ck.extra["bag_sweep_events"] = sum(sweep.values())
+    ck.extra["bag_sweep_by_region"] = dict(sweep)
+    # vacuity of the garbage-state-init sweep: every contract's bag intact, and all structural regions corrupted
+    if sweep["bag:intact"] < 17 or any(sweep["bag:" + r] < 17 for r in ("header", "rootlist", "d1", "d2", "ref", "data", "trunc_header", "trunc_ref", "trunc_data")):
+        raise Infra("bag sweep incomplete: %s" % dict(sweep))
     ck.extra["events_by_kind"] = dict(kinds)
     ck.extra["trace_verdicts"] = {"%s:%s" % k: v for k, v in sorted(verd.items())}
     # vacuity of the C->S side
